@@ -1,2 +1,236 @@
+'''C11 part (b): all well-formed transform chains up to a given length.
+
+Typed alphabet: every item maps a reference type to a reference type
+(P point, L line, T triangle, K tetrahedron, LL line^2, LT line x triangle), so
+that only chains that can occur on a real reference are enumerated.
+
+Oracle (numpy only): a chain denotes x -> A x + b obtained by composing the
+items' .linear / .offset matrices; canonical / uppermost / promote must return a
+well-formed chain with the same (A, b), the same orientation parity, and must be
+idempotent; iscanonical(canonical(c)).
+'''
+
+import json
+import numpy
+from . import core
+
+DIM = {'P': 0, 'L': 1, 'T': 2, 'K': 3, 'LL': 2, 'LT': 3}
+VERTS = {'P': numpy.zeros((1, 0)),
+         'L': numpy.array([[0.], [1.], [.5]]),
+         'T': numpy.array([[0, 0], [1, 0], [0, 1], [1 / 3, 1 / 3]]),
+         'K': numpy.array([[0, 0, 0], [1, 0, 0], [0, 1, 0], [0, 0, 1], [.25, .25, .25]]),
+         'LL': numpy.array([[0, 0], [1, 0], [0, 1], [1, 1], [.5, .5]]),
+         'LT': numpy.array([[0, 0, 0], [1, 0, 0], [0, 1, 0], [0, 0, 1], [1, 1, 0], [1, 0, 1], [.5, 1 / 3, 1 / 3]])}
+STARTS = ['L', 'T', 'LL', 'K', 'LT']
+
+
+def base_specs(t, inv):
+    'child and edge items of reference type t as (spec, target type)'
+    flips = (0, 1) if inv else (0,)
+    out = []
+    if t == 'P':
+        out += [(['SC', 0, 0], 'P')]
+    if t == 'L':
+        out += [(['SC', 1, k], 'L') for k in range(2)] + [(['SE', 1, e, f], 'P') for e in range(2) for f in flips]
+    if t == 'T':
+        out += [(['SC', 2, k], 'T') for k in range(4)] + [(['SE', 2, e, f], 'L') for e in range(3) for f in flips]
+    if t == 'K':
+        out += [(['SC', 3, k], 'K') for k in range(8)] + [(['SE', 3, e, f], 'T') for e in range(4) for f in flips]
+    if t == 'LL':
+        out += [(['TC', ['SC', 1, a], ['SC', 1, b]], 'LL') for a in range(2) for b in range(2)]
+        out += [(['TE1', ['SE', 1, e, f], 1], 'L') for e in range(2) for f in flips]
+        out += [(['TE2', 1, ['SE', 1, e, f]], 'L') for e in range(2) for f in flips]
+    if t == 'LT':
+        out += [(['TC', ['SC', 1, a], ['SC', 2, b]], 'LT') for a in range(2) for b in range(4)]
+        out += [(['TE1', ['SE', 1, e, f], 2], 'T') for e in range(2) for f in flips]
+        out += [(['TE2', 1, ['SE', 2, e, f]], 'LL') for e in range(3) for f in flips]
+    return out
+
+
+_ALPHA = {}
+
+
+def alphabet(t, inv, su=True):
+    if (t, inv, su) not in _ALPHA:
+        b = base_specs(t, inv)
+        out = list(b)
+        out.append((['ID', DIM[t]], t))
+        ch = [s for s, t2 in b if t2 == t]
+        ed = [(s, t2) for s, t2 in b if t2 != t]
+        if su:
+            out += [(['SU', c, e], t2) for c in ch for e, t2 in ed]
+        _ALPHA[t, inv, su] = [(s, t2, build_item(s)) for s, t2 in out]
+    return _ALPHA[t, inv, su]
+
+
+def build_item(s):
+    from nutils import transform as T
+    k = s[0]
+    if k == 'SC':
+        return T.SimplexChild(s[1], s[2])
+    if k == 'SE':
+        return T.SimplexEdge(s[1], s[2], bool(s[3]))
+    if k == 'TC':
+        return T.TensorChild(build_item(s[1]), build_item(s[2]))
+    if k == 'TE1':
+        return T.TensorEdge1(build_item(s[1]), s[2])
+    if k == 'TE2':
+        return T.TensorEdge2(s[1], build_item(s[2]))
+    if k == 'ID':
+        return T.Identity(s[1])
+    if k == 'SU':
+        return T.ScaledUpdim(build_item(s[1]), build_item(s[2]))
+    raise core.HarnessError('unknown item spec {}'.format(s))
+
+
+def chains(t, n, inv, su=True):
+    'all typed chains of exactly n items starting at reference type t: yields (specs, items, final type)'
+    if n == 0:
+        yield [], (), t
+        return
+    for s, t2, item in alphabet(t, inv, su):
+        for ss, items, t3 in chains(t2, n - 1, inv, su):
+            yield [s] + ss, (item,) + items, t3
+
+
 def shards(tier):
-    return []
+    '''quick: full alphabet (no inverted edges) to length 4 for L, T, LL and to length 3 for K, LT, plus all length-4
+    chains of K, LT without ScaledUpdim items; thorough: full alphabet incl. inverted edges to length 4 everywhere'''
+    out = []
+    if tier == 'quick':
+        for t in ('L', 'T', 'LL'):
+            out.append({'kind': 'chain', 'start': t, 'chunk': 0, 'nchunk': 1, 'minlen': 1, 'maxlen': 4, 'inv': 0, 'su': 1})
+        for t in ('K', 'LT'):
+            for k in range(2):
+                out.append({'kind': 'chain', 'start': t, 'chunk': k, 'nchunk': 2, 'minlen': 1, 'maxlen': 3, 'inv': 0, 'su': 1})
+            for k in range(2):
+                out.append({'kind': 'chain', 'start': t, 'chunk': k, 'nchunk': 2, 'minlen': 4, 'maxlen': 4, 'inv': 0, 'su': 0})
+    else:
+        for t in ('L', 'T', 'LL'):
+            nchunk = 1 if t == 'L' else 2
+            for k in range(nchunk):
+                out.append({'kind': 'chain', 'start': t, 'chunk': k, 'nchunk': nchunk, 'minlen': 1, 'maxlen': 4, 'inv': 1, 'su': 1})
+        for t in ('K', 'LT'):
+            for k in range(27):
+                out.append({'kind': 'chain', 'start': t, 'chunk': k, 'nchunk': 27, 'minlen': 1, 'maxlen': 4, 'inv': 1, 'su': 1})
+    return out
+
+
+def affine(chain):
+    'numpy composition of the items\' matrices: returns (A, b) with x -> A x + b'
+    A = b = None
+    for item in chain:
+        L = numpy.asarray(item.linear, dtype=float)
+        o = numpy.asarray(item.offset, dtype=float)
+        if A is None:
+            A, b = L, o
+        else:
+            A, b = A @ L, A @ o + b
+    return A, b
+
+
+def parity(chain):
+    return sum(1 for item in chain if bool(item.isflipped)) % 2
+
+
+def wellformed(chain, todims, fromdims):
+    if not isinstance(chain, tuple):
+        return 'result is a {} not a tuple'.format(type(chain).__name__)
+    if not chain:
+        return 'empty result'
+    if chain[0].todims != todims or chain[-1].fromdims != fromdims:
+        return 'maps {}->{} instead of {}->{}'.format(chain[-1].fromdims, chain[0].todims, fromdims, todims)
+    for a, b in zip(chain, chain[1:]):
+        if a.fromdims != b.todims:
+            return 'dimension mismatch between {} and {}'.format(a, b)
+    return None
+
+
+def check_chain(c, t_final):
+    '''returns (None, changed?) or ((key, what), changed)'''
+    from nutils import transform
+    x = VERTS[t_final]
+    A, b = affine(c)
+    ref = x @ A.T + b
+    par = parity(c)
+    todims, fromdims = c[0].todims, c[-1].fromdims
+    changed = False
+    try:
+        got = numpy.asarray(transform.apply(c, x))
+    except Exception as e:
+        return ('apply:raise', 'transform.apply raised {!r}'.format(e)), changed
+    if got.shape != ref.shape or not numpy.allclose(got, ref, rtol=0, atol=1e-13):
+        return ('apply:map', 'transform.apply(c, vertices) = {} but composing the matrices gives {}'.format(got.tolist(), ref.tolist())), changed
+    fs = [('canonical', transform.canonical), ('uppermost', transform.uppermost)] + [('promote{}'.format(n), (lambda ch, n=n: transform.promote(ch, n))) for n in range(4)]
+    for name, f in fs:
+        kname = name.rstrip('0123')
+        try:
+            d = f(c)
+        except core.Timeout:
+            raise
+        except Exception as e:
+            return ('{}:raise:{}'.format(kname, type(e).__name__), '{} raised {!r}'.format(name, e)), changed
+        d = tuple(d) if isinstance(d, list) else d
+        wf = wellformed(d, todims, fromdims)
+        if wf:
+            return ('{}:illformed'.format(kname), '{} returned {}: {}'.format(name, d, wf)), changed
+        if d != c:
+            changed = True
+        A2, b2 = affine(d)
+        if A2.shape != A.shape or not (numpy.allclose(A2, A, rtol=0, atol=1e-13) and numpy.allclose(b2, b, rtol=0, atol=1e-13)):
+            return ('{}:map'.format(kname), '{} returned {} = x->{}x+{} but the chain is x->{}x+{}'.format(name, d, A2.tolist(), b2.tolist(), A.tolist(), b.tolist())), changed
+        got = numpy.asarray(transform.apply(d, x))
+        if got.shape != ref.shape or not numpy.allclose(got, ref, rtol=0, atol=1e-13):
+            return ('{}:apply'.format(kname), 'apply({}(c), vertices) = {} != {}'.format(name, got.tolist(), ref.tolist())), changed
+        if parity(d) != par:
+            return ('{}:orientation'.format(kname), '{} returned {} with isflipped parity {} but the chain has parity {}'.format(name, d, parity(d), par)), changed
+        try:
+            dd = f(d)
+        except core.Timeout:
+            raise
+        except Exception as e:
+            return ('{}:raise2:{}'.format(kname, type(e).__name__), '{}({}(c)) raised {!r}'.format(name, name, e)), changed
+        if tuple(dd) != d:
+            return ('{}:idempotence'.format(kname), '{}(c) = {} but applying {} again gives {}'.format(name, d, name, dd)), changed
+        if name == 'canonical' and not transform.iscanonical(d):
+            return ('canonical:notcanonical', 'iscanonical(canonical(c)) is False for canonical(c) = {}'.format(d)), changed
+    return None, changed
+
+
+def run(spec, tier, res):
+    t0 = spec['start']
+    inv = bool(spec['inv'])
+    su = bool(spec['su'])
+    first = alphabet(t0, inv, su)
+    for ifirst, (s, t2, item) in enumerate(first):
+        if ifirst % spec['nchunk'] != spec['chunk']:
+            continue
+        for n in range(spec['minlen'] - 1, spec['maxlen']):
+            for ss, items, t3 in chains(t2, n, inv, su):
+                specs = [s] + ss
+                c = (item,) + items
+                res.count('evaluations')
+                res.count('chains')
+                try:
+                    with core.alarm(30):
+                        bad, changed = check_chain(c, t3)
+                except core.Timeout:
+                    bad, changed = ('hang', 'canonical/uppermost/promote did not return within 30 s'), False
+                if bad:
+                    res.violation('chain:' + bad[0], 'chain {}: {}'.format(c, bad[1]), {'kind': 'chain', 'items': specs, 'final': t3})
+                    continue
+                if changed:
+                    res.distinct('distinct_nontrivial', json.dumps(specs))
+                    res.count('chains_rewritten')
+                    if len(res.samples) < 1 and len(c) == 3:
+                        res.sample({'part': 'chain', 'chain': [repr(i) for i in c], 'final_reference': t3})
+
+
+def replay(w):
+    c = tuple(build_item(s) for s in w['items'])
+    try:
+        with core.alarm(30):
+            bad, changed = check_chain(c, w['final'])
+    except core.Timeout:
+        bad = ('hang', 'canonical/uppermost/promote did not return within 30 s')
+    return None if bad is None else '{}: chain {}: {}'.format(bad[0], c, bad[1])
